@@ -43,6 +43,8 @@ INVARIANT I_C18_Count
 INVARIANT I_C18_Provenance
 INVARIANT I_C18_SnapProvenance
 INVARIANT I_C18_Curvature
+INVARIANT I_C18_ProvenanceRestart
+INVARIANT I_C18_InheritedExact
 INVARIANT I_C17_ScalerOnce
 INVARIANT I_C20_Propagates
 INVARIANT I_C20_NoResultAfterFault
